@@ -76,6 +76,15 @@ Theorem C15_failed_list_is_noop : forall crc i b a force due oc st,
 Proof. exact refresh_failed_list_noop. Qed.
 Print Assumptions C15_failed_list_is_noop.
 
+(** ... and, if the engine was in step with the files before, the text in
+    force for that list (in the block and in the allow engine) stays the same,
+    whether or not the engine is rebuilt for other lists. *)
+Theorem C15_failed_list_in_force : forall crc i b a force due oc st,
+  engine_consistent st -> fails crc (oc i) ->
+  in_force (r_engine (refresh crc b a force due oc st)) i = in_force (r_engine st) i.
+Proof. exact refresh_failed_list_in_force. Qed.
+Print Assumptions C15_failed_list_in_force.
+
 (** Content whose checksum equals the recorded one is not written and not
     reported as an update. *)
 Theorem C15_same_checksum_not_written : forall crc l d re st fs,
